@@ -6,7 +6,7 @@
    cookies.is_expired are inputs of the model (carried in the case).
    Two variants of the two predicates are modelled: Orig = the unchanged tree, Fixed = the tree with
    fixes/C54-domain-suffix-path-segment.diff applied.  Executable definitions only. *)
-From Coq Require Import List Bool NArith.
+From Coq Require Import List Bool NArith ZArith.
 From MV Require Import Base.Bytes.
 Import ListNotations.
 Local Open Scope N_scope.
@@ -276,3 +276,49 @@ Definition step (v : variant) (flt_on : bool) (j : jar) (e : event) : jar :=
   end.
 
 Definition run (v : variant) (flt_on : bool) (h : list event) : jar := fold_left (step v flt_on) h [].
+
+(* ---------- cookies.get_expiration_ts / is_expired ---------- *)
+(* Python int(str) in base 10 on ASCII text: surrounding whitespace, optional sign, digit groups separated by
+   single underscores; None = ValueError *)
+Definition is_pyspace (c : byte) : bool :=
+  ((9 <=? bN c) && (bN c <=? 13)) || ((28 <=? bN c) && (bN c <=? 32)).
+Fixpoint lstrip_space (s : str) : str :=
+  match s with c :: s' => if is_pyspace c then lstrip_space s' else s | [] => [] end.
+Fixpoint digits_val (s : str) (acc : N) (prev_digit : bool) : option N :=
+  match s with
+  | [] => if prev_digit then Some acc else None
+  | c :: s' =>
+    if is_digit c then digits_val s' (acc * 10 + (bN c - 48)) true
+    else if byte_eqb c x5f && prev_digit then digits_val s' acc false
+    else None
+  end.
+Definition py_int (s : str) : option Z :=
+  let s := rev (lstrip_space (rev (lstrip_space s))) in
+  match s with
+  | c :: s' =>
+    if byte_eqb c x2d then option_map (fun n => Z.opp (Z.of_N n)) (digits_val s' 0 false)
+    else if byte_eqb c x2b then option_map Z.of_N (digits_val s' 0 false)
+    else option_map Z.of_N (digits_val s 0 false)
+  | [] => None
+  end.
+
+(* is_expired(attrs).  expires = what the Expires branch of get_expiration_ts does (email.utils is not
+   modelled): None = no Expires attribute, Some None = parsedate_tz gave nothing, Some (Some b) = a timestamp
+   was computed and b says whether it is in the past.  max_age = the Max-Age attribute (Some None = present
+   without value).  Result None = an exception (int(None) is a TypeError).  An integer max_age gives
+   now1 + max_age <= now2 with now1 <= now2 < now1 + 1. *)
+Definition is_expired (expires : option (option bool)) (max_age : option (option str)) : option bool :=
+  match expires with
+  | Some (Some b) => Some b
+  | Some None => Some false            (* elif: Max-Age is not consulted *)
+  | None =>
+    match max_age with
+    | None => Some false
+    | Some None => None
+    | Some (Some s) =>
+      match py_int s with
+      | Some z => Some (z <=? 0)%Z
+      | None => Some false
+      end
+    end
+  end.
